@@ -1,10 +1,18 @@
-(* Props/C11.v — placeholder, replaced when Proofs/JoinAll.v lands *)
+(* Props/C11.v — what a theorem can carry for C11: one model stands for both runtimes because the two semantic
+   forks between CPython and compiled code are closed for the join kernels: no out-of-bounds access (IndexError vs
+   silent read) and no fixed-width overflow (every produced index is a row number in range, or the marker). *)
 From Coq Require Import ZArith List.
-From EV Require Import Res Arr Join JoinSpec JoinBase JoinIface JoinDriver JoinMain.
+From EV Require Import Res Arr Join JoinSpec JoinBase JoinIface JoinDriver JoinMain JoinAll.
 Import ListNotations.
 Open Scope Z_scope.
-Theorem c11_both_unique_total : forall is_left L R inv cs,
-  1 <= cs -> ssorted L -> ssorted R ->
-  streamed (mkvar KBU is_left) L R inv cs = Ok (expected KBU is_left inv L R).
-Proof. exact streamed_both_unique_correct. Qed.
-Print Assumptions c11_both_unique_total.
+
+Theorem c11_join_maps_in_range : forall k is_left inv L R,
+  (forall x, In x (fst (expected k is_left inv L R)) -> 0 <= x < len L) /\
+  (forall y, In y (snd (expected k is_left inv L R)) -> y = inv \/ 0 <= y < len R).
+Proof. exact expected_in_range. Qed.
+Print Assumptions c11_join_maps_in_range.
+
+Theorem c11_join_no_oob : forall k is_left L R inv cs site,
+  kind_pre k L R -> 1 <= cs -> streamed (mkvar k is_left) L R inv cs <> OOB site.
+Proof. intros k is_left L R inv cs site Hp Hc. exact (streamed_no_oob k is_left L R inv cs Hp Hc site). Qed.
+Print Assumptions c11_join_no_oob.
